@@ -76,9 +76,9 @@ namespace {
     const std::memory_order MO_PUB = std::memory_order_relaxed;
     const std::memory_order MO_OBS = std::memory_order_relaxed;
     inline uint64_t stamp() { return 0; }
-    const uint32_t kQuickMax = 2500;       // quick tier: elements per typed episode (TSan runs 5-10x slower)
+    const uint32_t kQuickMax = 2500, kThoroughMax = 8000;       // elements per typed episode (TSan runs 5-10x slower)
 #else
-    const uint32_t kQuickMax = 4000;
+    const uint32_t kQuickMax = 4000, kThoroughMax = 20000;
     const std::memory_order MO_PUB = std::memory_order_release;
     const std::memory_order MO_OBS = std::memory_order_acquire;
     inline uint64_t stamp() { return tick(); }
@@ -599,7 +599,7 @@ namespace {
             Rng rng( ep.ep_seed );
             ep.ring.reset( new Ring( ctor_cap ));
             ep.cap = ep.ring->capacity();          // capacities are read, not assumed
-            ep.N = args().thorough ? rng.range( 2000, 20000 ) : rng.range( 1000, kQuickMax );
+            ep.N = args().thorough ? rng.range( 2000, kThoroughMax ) : rng.range( 1000, kQuickMax );
             ep.mix = draw_mix( rng, ep.cap, ep.ep_seed );
             ep.run();
             uint64_t wraps = ep.cons.done / ep.cap;
